@@ -74,7 +74,18 @@ CompileTags(ev) ==
                              \cup (IF ev.got = "fail" THEN {} ELSE {"compiles-without:" \o ev.omitted})
       [] OTHER -> (IF ev.got = "fail" THEN {} ELSE {"unknown-key-compiles"})
 
+\* L2 (C06): what the generated accessor of key ev.key rendered in ev.locale with the given environment
+RenderTags(ev) ==
+    LET P == Cases[ev.case].abs.P
+        r == Resolved(P, ev.locale, ev.key) IN
+    IF ~r.ok THEN {"harness-rendered-an-unresolvable-key"}
+    ELSE IF ev.outcome # "Ok" THEN {"render-outcome:" \o ev.outcome}
+    ELSE LET exp == RenderX(r.v, ev.env, ev.counts, ev.locale) IN
+         IF HasNoBranch(exp) THEN {}
+         ELSE IF ev.out = exp THEN {} ELSE {"rendered:" \o ev.flav \o ":" \o ev.locale \o ":" \o ev.key}
+
 Tags(ev) == IF ev.ev = "Load" THEN CaseTags(ev)
+            ELSE IF ev.ev = "Render" THEN RenderTags(ev)
             ELSE IF ev.ev = "Compile" THEN CompileTags(ev)
             ELSE IF ev.ev = "Crash" THEN {"crash:" \o ev.outcome}
             ELSE {}
